@@ -35,6 +35,8 @@ def gen_pack_case(rng, tier="quick", small=False):
     kinds = None
     frame = gen.gen_frame_spec(rng, nrows, kinds=kinds, index_kind=rng.choice(
         ("default", "named", "nonunique")))
+    if rng.random() < 0.1:
+        gen.make_collinear(frame, rng)          # total extent degenerate in one axis only
     k_in = rng.randint(1, min(6, max(1, nrows)))
     if rng.random() < 0.3:
         parts = {"mode": "splits", "splits": gen.gen_splits(rng, nrows, k_in)}
